@@ -4,7 +4,7 @@
    readers with any number of queries, flushers, replacers with any operation lists, closers) and EVERY state
    reachable by any interleaving of enabled steps.  Statements closed by `exact lemma`. *)
 From Coq Require Import List Bool Arith.
-From OG Require Import C04.Model C04.Proofs C04.Steps C04.Inv C04.Views C04.Safety C04.Progress.
+From OG Require Import C04.Model C04.Proofs C04.Steps C04.Inv C04.Views C04.Safety C04.Progress C04.NotBoth.
 Import ListNotations.
 
 (* every executable schedule is a reachability witness (used by Mutants.v / Refuted.v and by the correspondence) *)
@@ -26,6 +26,15 @@ Theorem C04_view_complete_in_progress : forall l st i r ms fs res,
   nth_error (actors st) i = Some (AR r) -> r_ok r = true -> r_ph r = R4 ms fs res -> incl (r_start r) res.
 Proof. exact view_complete_in_progress. Qed.
 Print Assumptions C04_view_complete_in_progress.
+
+(* ... nor shows both: the memtables of a view and its files never overlap in provenance; in particular a view never
+   contains the snapshot table together with a file flushed from it *)
+Theorem C04_view_not_both : forall l st i r ms fs,
+  forallb fresh l = true -> reach correct (init_state l) st ->
+  nth_error (actors st) i = Some (AR r) -> (r_ph r = R3 ms fs \/ exists res, r_ph r = R4 ms fs res) ->
+  forall m f x, In m ms -> In f fs -> get_file (sh st) f = Some x -> f_src x <> Some m.
+Proof. exact view_not_both_all. Qed.
+Print Assumptions C04_view_not_both.
 
 (* view_values_acked: every batch a query returns was appended by some writer (acknowledged or still in flight) *)
 Theorem C04_view_values_acked : forall l st i r ok start res,
